@@ -28,19 +28,19 @@ chk('C04', 'model_checking',
     '(LayoutImplMC) and its streams are accepted by the abstract machine (concrete => abstract).',
     TB + 'Exhaustive only up to the stated node bound; larger documents are random.',
     'TLA+ trace validation of real SDoc streams against a nondeterministic layout machine (TLC) + model checking of the concrete engine spec',
-    'DESIGN.md section 5 C04', 'layout')
+    'DESIGN.md section 4 C04', 'layout')
 chk('C05', 'model_checking',
     'Same trace validation with the C05 guard enabled: a group may be explained as flat only if the rendered line '
     'it sits on ends within min(W, indent + R); a stream with no admissible explanation is a violation. Classic '
     'algebra, exhaustive to a node bound + random, all widths/ribbons/strategies.',
     TB + 'Line lengths are measured after the renderer\'s right-trim (permissive reading).',
-    'TLA+ trace validation (LayoutSpec.tla guard C05.flat) with TLC', 'DESIGN.md section 5 C05', 'layout')
+    'TLA+ trace validation (LayoutSpec.tla guard C05.flat) with TLC', 'DESIGN.md section 4 C05', 'layout')
 chk('C06', 'model_checking',
     'Same trace validation with the C06 guard enabled: a group without forced break may be explained as broken '
     'only if the true-column look-ahead (Fits) of the group plus the rest of its line overflows; plus the '
     'value-level corollary on real pformat (one-line form of L columns is reproduced at every width >= L).',
     TB + 'The look-ahead in the spec uses true columns; the engine\'s relative-column quirk is on the optimistic side.',
-    'TLA+ trace validation (LayoutSpec.tla guard C06.break) with TLC + pformat corollary', 'DESIGN.md section 5 C06', 'layout')
+    'TLA+ trace validation (LayoutSpec.tla guard C06.break) with TLC + pformat corollary', 'DESIGN.md section 4 C06', 'layout')
 
 chk('C15', 'model_checking',
     'spec/Registry.tla states the dispatch rule abstractly (nearest registered class in the MRO, else first predicate, '
@@ -51,21 +51,21 @@ chk('C15', 'model_checking',
     'and every execution is validated by TLC (RegistryTrace) step by step, results against the abstract rule '
     '(VIOLATION) and results + registry projection against the concrete prediction (DRIFT).',
     TB + 'Where one class holds both a by-name and a by-class registration either printer is accepted but it must not change between registrations.',
-    'TLA+ model checking of the registry + replay of TLC-generated histories + trace validation', 'DESIGN.md section 5 C15', 'registry')
+    'TLA+ model checking of the registry + replay of TLC-generated histories + trace validation', 'DESIGN.md section 4 C15', 'registry')
 chk('C18', 'model_checking',
     'spec/Config.tla: effective = explicit over defaults, set_default_config changes exactly its keys, what each of the six '
     'entry points passes on and appends; ConfigMC explores every reachable default state; histories (systematic per-key grid, '
     'TLC -simulate walks, seeded random) are executed on the real package and validated by TLC (ConfigTrace) against a table '
     'of reference texts pformat(value, **full config).',
     TB + 'Texts are identified with one of 64 reference renderings of a value chosen to be sensitive to every setting.',
-    'TLA+ trace validation of configuration/entry-point histories (TLC) + model checking of the defaults state space', 'DESIGN.md section 5 C18', 'config')
+    'TLA+ trace validation of configuration/entry-point histories (TLC) + model checking of the defaults state space', 'DESIGN.md section 4 C18', 'config')
 chk('C19', 'exploration',
     'Print histories (all ordered pairs, triples of cache-warming values, random walks of length 30) over a corpus touching '
     'every cache are executed in one interpreter with pristine caches and validated by TLC against spec/History.tla: every '
     'text must equal the baseline obtained by printing that value first in a fresh interpreter, inputs are deep-snapshotted '
     'before/after, and the cache projection must equal the accumulated footprints (DRIFT).',
     TB + 'Exploration of histories, not a proof of purity; baselines come from one subprocess per corpus value.',
-    'replay of print histories validated against History.tla (TLC) with fresh-interpreter baselines', 'DESIGN.md section 5 C19', 'history')
+    'replay of print histories validated against History.tla (TLC) with fresh-interpreter baselines', 'DESIGN.md section 4 C19', 'history')
 chk('C20', 'model_checking',
     'spec/RegistryThreads.tla splits the dispatch path at source-line granularity (Acquire/Check/Pop/Reg/NextC/Release/'
     'Dispatch) and TLC checks, over all interleavings of 2-3 threads x all programs, that no call raises and each returns the '
@@ -73,7 +73,7 @@ chk('C20', 'model_checking',
     'sys.settrace scheduler runs every preemption plan up to a bound at package line boundaries; each execution is judged by '
     'TLC (RegistryThreadsTrace: SafeTrace = VIOLATION clause, behaviour-of-the-model = DRIFT).',
     TB + 'Thread switches only at line boundaries of the dispatch-path functions; functools internals atomic.',
-    'TLA+ model checking of all interleavings + systematic schedule exploration with trace validation', 'DESIGN.md section 5 C20', 'threads')
+    'TLA+ model checking of all interleavings + systematic schedule exploration with trace validation', 'DESIGN.md section 4 C20', 'threads')
 
 TERM = ('Trusted: TLC, PyTerm.tla (my semantics of the printed sub-language; cross-checked on every case against CPython '
         'eval + typed equality, a disagreement is a machinery error), ast.parse/tokenize as lexer/parser, CPython. ')
@@ -82,77 +82,77 @@ chk('C01', 'other',
     'universe of value trees x widths x ribbon x indent x sort is parsed (syntax only) and TLC decides '
     'PyTerm!TEq(Denote(obs), value) (typed structural equality, sets as sets, dict order incl. key sorting); non-termination '
     'and printer failures are violations.',
-    TERM, 'TLA+ batch evaluation of Denote/TEq (PyTerm.tla) on parsed outputs of the real pformat', 'DESIGN.md section 5 C01', 'terms')
+    TERM, 'TLA+ batch evaluation of Denote/TEq (PyTerm.tla) on parsed outputs of the real pformat', 'DESIGN.md section 4 C01', 'terms')
 chk('C02', 'model_checking',
     'StrSplit.tla transcribes str_to_lines branch by branch over character classes; TLC explores ALL class strings up to the '
     'bound x max_len x quote x str/bytes x pattern and checks conservation, no-empty-piece and a lexicographic termination '
     'variant; the real splitter is bound to the model line by line (DRIFT) and the literal pieces found in real pformat outputs '
     '(six placements x every width) are judged by TLC (PiecesOK).',
     TB + 'Character classes are realised by one representative each; tokenize/ast.literal_eval decode single pieces.',
-    'TLA+ model checking of the splitter + trace validation of real splitter runs and printed literal pieces', 'DESIGN.md section 5 C02', 'strsplit')
+    'TLA+ model checking of the splitter + trace validation of real splitter runs and printed literal pieces', 'DESIGN.md section 4 C02', 'strsplit')
 chk('C03', 'other',
     'For corpora of built-in, standard-library, subclass, commented and pretty_call values, every distinct output over widths '
     '1..200 x ribbon x indent is parsed and compared by TLC with the syntax tree obtained at the reference configuration; the '
     'indent-multiple clause is evaluated on every line. Together with C04 (the engine only picks layouts of the document) this '
     'covers the sampled widths; it is trace validation, not a proof for all widths.',
-    TERM, 'TLA+ batch comparison of parsed outputs across layout configurations', 'DESIGN.md section 5 C03', 'terms')
+    TERM, 'TLA+ batch comparison of parsed outputs across layout configurations', 'DESIGN.md section 4 C03', 'terms')
 chk('C07', 'exploration',
     'Stdlib.tla states the boundary grids and the field-dropping arithmetic of timedelta/datetime/time; TLC proves '
     'Denote(View(x)) = x on the grids, emits them, and validates the keyword lists the real printers print for each descriptor; '
     'all other bundled standard-library printers are explored over boundary instances x nesting contexts x widths with an eval '
     'cross-oracle (per-type equality); totality (no internal printer failure) is checked on every print.',
     'Faithfulness outside the datetime family is decided by Python eval + per-type equality, not by the specification.',
-    'TLC-generated descriptor grids replayed into the printers + trace validation (datetime family); eval oracle elsewhere', 'DESIGN.md section 5 C07', 'stdlib')
+    'TLC-generated descriptor grids replayed into the printers + trace validation (datetime family); eval oracle elsewhere', 'DESIGN.md section 4 C07', 'stdlib')
 chk('C08', 'other',
     'Instances of plain / __repr__ / __str__ / both subclasses of every built-in base and an IntEnum, x base values x contexts '
     'x widths: TLC decides Denote(obs) = <<"sub", qualified name, base value>> (PyTerm.tla).',
-    TERM, 'TLA+ batch evaluation of Denote/TEq on parsed outputs', 'DESIGN.md section 5 C08', 'terms')
+    TERM, 'TLA+ batch evaluation of Denote/TEq on parsed outputs', 'DESIGN.md section 4 C08', 'terms')
 chk('C09', 'other',
     'Random placements of comment()/trailing_comment() with adversarial texts on value skeletons x widths: TLC checks that the '
     'commented output has the syntax tree of the uncommented one and that the words found in # comments are an order-preserving '
     'merge of the attached texts (TermTrace!IsMerge); warnings/exceptions caused by comment text are violations.',
-    TERM, 'TLA+ batch validation (syntax equality + word-merge) of parsed outputs and comment tokens', 'DESIGN.md section 5 C09', 'terms')
+    TERM, 'TLA+ batch validation (syntax equality + word-merge) of parsed outputs and comment tokens', 'DESIGN.md section 4 C09', 'terms')
 chk('C10', 'other',
     'Container trees x max_seq_len in 1..maxlen+1 and None x widths x sort: TLC decides Denote(obs) = PyTerm!Truncate(value, N) '
     'and that the truncation notices are exactly PyTerm!Dropped(value, N); None must equal a limit larger than every container.',
-    TERM, 'TLA+ batch evaluation of Truncate/Dropped on parsed outputs', 'DESIGN.md section 5 C10', 'terms')
+    TERM, 'TLA+ batch evaluation of Truncate/Dropped on parsed outputs', 'DESIGN.md section 4 C10', 'terms')
 chk('C11', 'other',
     'Container trees with unique leaves x depth in 0..height+2 x widths: TLC compares the parsed output with '
     'PyTerm!CutSyn(value, d) (placeholders of the right type exactly at the cut); two recorded deviations (empty list/tuple and '
     'str keys at the cut level) are known findings recognised by the spec itself.',
-    TERM, 'TLA+ batch evaluation of CutSyn on parsed outputs', 'DESIGN.md section 5 C11', 'terms')
+    TERM, 'TLA+ batch evaluation of CutSyn on parsed outputs', 'DESIGN.md section 4 C11', 'terms')
 chk('C12', 'exploration',
     'Design level: TLC checks ranking functions of the three loops (LayoutImplMC!Decreasing, StrSplit!Progress, Walk) on bounded '
     'universes. Code level: executed source lines inside the package (sys.monitoring) for 27 parametrised families at sizes '
     '6..48/96 under a hard step budget; growth per doubling must stay <= 16.',
     'Exploration of families, not a proof of a growth law; a polynomial of degree <= 4 passes.',
-    'TLC ranking-function checks + executed-line counting of input families', 'DESIGN.md section 5 C12', 'cost')
+    'TLC ranking-function checks + executed-line counting of input families', 'DESIGN.md section 4 C12', 'cost')
 chk('C13', 'model_checking',
     'Walk.tla: abstract Unfold (marker iff the node is on the DFS path) and the concrete visit-bracket machine of _run_pretty; '
     'WalkMC checks concrete => abstract, visited = pending exits and no residue step by step for every graph of the universe; '
     'every graph is printed twice by the real package and TLC compares the token sequence of the parsed output with Unfold and '
     'the start/end/is_visited log with the machine (DRIFT).',
     TB + 'Graphs exhaustive to 2 nodes (3 kinds) / 3 nodes (list, dict), random beyond.',
-    'TLA+ model checking of the traversal machine + trace validation of real prints and visit logs', 'DESIGN.md section 5 C13', 'walk')
+    'TLA+ model checking of the traversal machine + trace validation of real prints and visit logs', 'DESIGN.md section 4 C13', 'walk')
 chk('C14', 'fault_enumeration',
     'Every printer-invocation index of every tree/DAG of instrumented user objects (with/without trailing_comment, printers '
     'accepting it or not) x exception classes is injected; TLC compares each faulty output with Walk!Unfold(graph, root, fault) '
     '(baseline with exactly that invocation replaced by repr), the warning count, and the following fault-free print; WalkMC '
     'model-checks the same fault plans on the concrete machine; non-Doc results are scenario-checked.',
     TB + 'Faults are raised at the start of the failing printer call.',
-    'model-driven fault enumeration + TLA+ trace validation', 'DESIGN.md section 5 C14', 'walk')
+    'model-driven fault enumeration + TLA+ trace validation', 'DESIGN.md section 4 C14', 'walk')
 chk('C16', 'model_checking',
     'Color.tla: abstract per-character style = innermost token annotation, strip = plain rendering, final reset; concrete colour '
     'stack. ColorMC checks concrete => abstract over ALL well-nested streams up to the bound; the bytes really written (synthetic '
     'streams x 32 attribute combinations, real values x every installed pygments style, true colours forced) are decoded by an '
     'SGR state machine and judged by TLC (ColorTrace).',
     TB + 'The SGR decoder is trusted.',
-    'TLA+ model checking of the colour stack + trace validation of decoded escape streams', 'DESIGN.md section 5 C16', 'color')
+    'TLA+ model checking of the colour stack + trace validation of decoded escape streams', 'DESIGN.md section 4 C16', 'color')
 chk('C17', 'other',
     'pretty_call / pretty_call_alt with random args/kwargs forms and callables: TLC checks the call shape against the '
     'stand-alone prints of the arguments; dataclass / attrs class definitions are ENUMERATED BY TLC from Extras.tla, '
     'materialised, printed, and the printed keywords validated against Extras!Shown (+ reconstruction when Reconstructible).',
-    TERM, 'replay of TLC-generated class definitions + TLA+ validation of parsed outputs', 'DESIGN.md section 5 C17', 'extras')
+    TERM, 'replay of TLC-generated class definitions + TLA+ validation of parsed outputs', 'DESIGN.md section 4 C17', 'extras')
 
 ALL = ['C%02d' % i for i in range(1, 21)]
 REASON_PENDING = 'check not built yet in this round; see DESIGN.md section 8 (order of work)'
